@@ -1587,7 +1587,7 @@ func TestVerifC22(t *testing.T) {
 	}()
 	// part 1: InMemoryStore
 	mem := &c22Leg{r: r, kind: "mem"}
-	n := r.N(200, 5000)
+	n := r.N(200, 3000)
 	for ci := 0; ci < n; ci++ {
 		mem.runCase(ci)
 	}
@@ -1598,7 +1598,7 @@ func TestVerifC22(t *testing.T) {
 	// part 2: EtcdStore over an embedded etcd
 	e := c22StartEtcd(t)
 	et := &c22Leg{r: r, kind: "etcd", etcd: e}
-	n = r.N(20, 260)
+	n = r.N(20, 160)
 	deadline := time.Now().Add(4 * time.Minute)
 	if r.Thorough() {
 		deadline = time.Now().Add(20 * time.Minute)
